@@ -1047,8 +1047,8 @@ def convert_to_typing_types(x: typing.Type) -> typing.Type:
     if x in {list, set, dict, frozenset, tuple, type}:
         raise ValueError('Missing type arguments')
 
-    if not hasattr(x, '__origin__'):
-        return x
+    if not isinstance(x, types.GenericAlias):
+        return x  # only builtin aliases are converted; typing constructs nested in them are kept as they are
 
     origin = x.__origin__  # type: ignore # checked above
     args = [convert_to_typing_types(a) for a in x.__args__]  # type: ignore
